@@ -3,41 +3,52 @@
 (* virtualWALReader under TLC-generated schedules (Failover.tla behaviours).    *)
 (* Events: fwrote (WriteRecord returned), freleased (a sync waiter woke up),    *)
 (* fclosed, fcrash (logged BEFORE the crash clone is taken, so a release logged  *)
-(* earlier happened before the crash), fstop, fread (the logical log as read).  *)
+(* earlier happened before the crash), fstop, fwaiters (sync waiters still not   *)
+(* signalled after Close returned), fread (the logical log as read).            *)
+(* fwrote covers n consecutive records i..i+n-1 with sequence numbers            *)
+(* seq, seq+count, ... (n = 1 except in the scaled many-record schedules); its   *)
+(* sync flag belongs to the last of them.  fgrow (the ring buffer doubled)       *)
+(* is informational.                                                             *)
 (* The fread action carries Failover.tla's invariants ExactlyOnceInOrder,        *)
 (* NothingForeign, AckedSyncedPresent, NoHoles, CleanCloseComplete.              *)
 EXTENDS Integers, Sequences, FiniteSets, TLC, Json
 Trace == ndJsonDeserialize("trace.ndjson")
-VARIABLES l, wrote, real, relOK, ended, closedOK   \* real = indexes of records with count > 0
-vars == <<l, wrote, real, relOK, ended, closedOK>>
+VARIABLES l, wrote, wroteSet, real, relOK, ended, closedOK   \* real = indexes of records with count > 0; wroteSet = Range(wrote)
+vars == <<l, wrote, wroteSet, real, relOK, ended, closedOK>>
 Ev == Trace[l]
 Is(o) == l <= Len(Trace) /\ Trace[l].op = o /\ l' = l + 1
 Range(s) == {s[i] : i \in 1..Len(s)}
 
-TraceInit == l = 1 /\ wrote = <<>> /\ real = {} /\ relOK = {} /\ ended = FALSE /\ closedOK = FALSE /\ TLCSet(1, 0)
-Reset == Is("reset") /\ wrote' = <<>> /\ real' = {} /\ relOK' = {} /\ ended' = FALSE /\ closedOK' = FALSE
-Skip == (Is("fstart") \/ Is("fswitch")) /\ UNCHANGED <<wrote, real, relOK, ended, closedOK>>
+TraceInit == l = 1 /\ wrote = <<>> /\ wroteSet = {} /\ real = {} /\ relOK = {} /\ ended = FALSE /\ closedOK = FALSE /\ TLCSet(1, 0)
+Reset == Is("reset") /\ wrote' = <<>> /\ wroteSet' = {} /\ real' = {} /\ relOK' = {} /\ ended' = FALSE /\ closedOK' = FALSE
+Skip == (Is("fstart") \/ Is("fswitch") \/ Is("fgrow")) /\ UNCHANGED <<wrote, wroteSet, real, relOK, ended, closedOK>>
 (* records with count = 0 are LogData-only batches: written to the log, never replayed *)
-Wrote == Is("fwrote") /\ wrote' = (IF Ev.count > 0 THEN Append(wrote, Ev.seq) ELSE wrote)
-         /\ real' = (IF Ev.count > 0 THEN real \cup {Ev.i} ELSE real)
+Wrote == Is("fwrote") /\ wrote' = (IF Ev.count > 0 THEN wrote \o [k \in 1..Ev.n |-> Ev.seq + (k - 1) * Ev.count] ELSE wrote)
+         /\ wroteSet' = (IF Ev.count > 0 THEN wroteSet \cup {Ev.seq + (k - 1) * Ev.count : k \in 1..Ev.n} ELSE wroteSet)
+         /\ real' = (IF Ev.count > 0 THEN real \cup (Ev.i..(Ev.i + Ev.n - 1)) ELSE real)
          /\ UNCHANGED <<relOK, ended, closedOK>>
 (* only releases seen before the crash / stop point count as acknowledgements *)
 Released == Is("freleased")
             /\ relOK' = (IF ~ended /\ ~Ev.err /\ Ev.i \in real THEN relOK \cup {Ev.seq} ELSE relOK)
-            /\ UNCHANGED <<wrote, real, ended, closedOK>>
-Closed == Is("fclosed") /\ closedOK' = (IF ended THEN closedOK ELSE ~Ev.err) /\ UNCHANGED <<wrote, real, relOK, ended>>
-Crash == Is("fcrash") /\ ended' = TRUE /\ UNCHANGED <<wrote, real, relOK, closedOK>>
-Stop == Is("fstop") /\ ended' = TRUE /\ UNCHANGED <<wrote, real, relOK, closedOK>>
+            /\ UNCHANGED <<wrote, wroteSet, real, ended, closedOK>>
+Closed == Is("fclosed") /\ closedOK' = (IF ended THEN closedOK ELSE ~Ev.err) /\ UNCHANGED <<wrote, wroteSet, real, relOK, ended>>
+Crash == Is("fcrash") /\ ended' = TRUE /\ UNCHANGED <<wrote, wroteSet, real, relOK, closedOK>>
+Stop == Is("fstop") /\ ended' = TRUE /\ UNCHANGED <<wrote, wroteSet, real, relOK, closedOK>>
+(* Close has returned (popAll ran): every sync waiter must have been signalled *)
+Waiters == Is("fwaiters") /\ Ev.pending = 0 /\ UNCHANGED <<wrote, wroteSet, real, relOK, ended, closedOK>>
 
 IsPrefix(s, t) == Len(s) <= Len(t) /\ \A i \in 1..Len(s) : s[i] = t[i]
-Read == Is("fread") /\ UNCHANGED <<wrote, real, relOK, ended, closedOK>>
-  /\ \A i \in 1..(Len(Ev.seqs) - 1) : Ev.seqs[i] < Ev.seqs[i + 1]        \* exactly once, in order
-  /\ Range(Ev.seqs) \subseteq Range(wrote)                               \* nothing foreign (negative = foreign bytes)
+Read == Is("fread") /\ UNCHANGED <<wrote, wroteSet, real, relOK, ended, closedOK>>
+  \* (the quantified checks are written "= TRUE": TLC then evaluates them as expressions instead of unfolding a
+  \*  20000-fold conjunction of the action, which does not terminate in reasonable time on the many-record runs)
+  /\ (\A i \in 1..(Len(Ev.seqs) - 1) : Ev.seqs[i] < Ev.seqs[i + 1]) = TRUE \* exactly once, in order
+  /\ Range(Ev.seqs) \subseteq wroteSet                                   \* nothing foreign (negative = foreign bytes)
+  /\ Ev.term # "BADBATCH"                                                \* ... and no intact record that is not a batch (never written)
   /\ relOK \subseteq Range(Ev.seqs)                                      \* acknowledged-synced batches present
-  /\ IsPrefix(Ev.seqs, wrote)                                            \* no holes
+  /\ IsPrefix(Ev.seqs, wrote) = TRUE                                     \* no holes
   /\ ((~Ev.crashed /\ closedOK) => (Ev.seqs = wrote /\ Ev.term = "EOF")) \* clean close: everything, clean end
 
-TraceNext == Reset \/ Skip \/ Wrote \/ Released \/ Closed \/ Crash \/ Stop \/ Read
+TraceNext == Reset \/ Skip \/ Wrote \/ Released \/ Closed \/ Crash \/ Stop \/ Waiters \/ Read
 TraceSpec == TraceInit /\ [][TraceNext]_vars
 HWM == IF l - 1 > TLCGet(1) THEN TLCSet(1, l - 1) ELSE TRUE
 TraceAccepted == PrintT(<<"HWM", TLCGet(1)>>) /\ TLCGet(1) = Len(Trace)
